@@ -1,5 +1,5 @@
 """C08: writer of the generated Coq files (rule literals, per-rule checks, the assembled table)."""
-from .c08_dump import COQ_ID, SHAPE, MAX_POINTS, as_ints
+from .c08_dump import COQ_ID, SHAPE, MAX_POINTS
 from . import c08_oracle as orc
 
 HDR = ('From Coq Require Import ZArith List QArith Qabs Bool Arith Lia.\n'
@@ -9,9 +9,6 @@ HDR = ('From Coq Require Import ZArith List QArith Qabs Bool Arith Lia.\n'
 PRIMITIVE = ['RefPoint', 'RefLine', 'RefTri', 'RefTet']
 # (factor 1, factor 2): the rule of the cell is compared with tensor(rule of f1, rule of f2) for the same n
 TENSOR = {'RefQuad': ('RefLine', 'RefLine'), 'RefHex': ('RefQuad', 'RefLine'), 'RefWedge': ('RefTri', 'RefLine')}
-# tolerance with which the rules of a cell are established internally (all imply tol45)
-TOLINT = {'RefPoint': 'tol48', 'RefLine': 'tol48', 'RefTri': 'tol46', 'RefTet': 'tol46',
-          'RefQuad': 'tolq', 'RefHex': 'tol45', 'RefWedge': 'tol45'}
 DELTA = 'delta50'
 PART_SECONDS = 3.0
 
